@@ -13,7 +13,7 @@
    in a BeginBlock (any -> unstaked). *)
 From Coq Require Import List ZArith NArith Bool.
 From PM Require Import Base.Bytes Store.KV Store.MergeProofs Num.IntModel Num.DecModel Num.DecProofs
-  App.Model App.BankProofs App.TxProofs App.KeyProofs App.PosProofs App.IndexProofs App.IndexComplete App.QueueProofs App.ExportProofs App.TransitionProofs App.Examples App.Invariants.
+  App.Model App.BankProofs App.TxProofs App.KeyProofs App.PosProofs App.IndexProofs App.IndexComplete App.QueueProofs App.ExportProofs App.TransitionProofs App.KeyTypes App.Examples App.Invariants.
 Import ListNotations.
 Local Open Scope Z_scope.
 
@@ -119,7 +119,15 @@ Example C06_ex_premises : exists s ups, ex_genesis = Some (s, ups) /\ bank_ok s 
 Proof. exact ex_genesis_all_ok. Qed.
 Example C06_ex : exists s, ex_final = Some s /\ aget (accts s) A2 = Some 3000000 /\ aget (vals s) A2 = None.
 Proof. destruct ex_final_some as (s & E & _ & B & V & _). eauto. Qed.
+(* the same history-level invariants when the consensus parameters admit ed25519 validator keys only *)
+Theorem C06_index_sound_under_key_restriction r ops s s' : idx_sound s -> run_cp r ops s = Some s' -> idx_sound s'.
+Proof. exact (run_cp_idx_sound r ops s s'). Qed.
+Theorem C06_unstaking_queued_under_key_restriction r ops s s' : queue_ok s -> run_cp r ops s = Some s' -> queue_ok s'.
+Proof. exact (run_cp_queue_ok r ops s s'). Qed.
+Theorem C06_queue_sound_under_key_restriction r ops s s' : queue_sound s -> run_cp r ops s = Some s' -> queue_sound s'.
+Proof. exact (run_cp_queue_sound r ops s s'). Qed.
 Print Assumptions C06_jail_removes_index_entry.
+Print Assumptions C06_index_sound_under_key_restriction.
 Print Assumptions C06_restart_from_export_is_identity.
 Print Assumptions C06_only_legal_transitions.
 Print Assumptions C06_import_establishes_invariants.
